@@ -13,7 +13,13 @@ pub mod privileges;
 pub mod rustls_config;
 
 /// IndexMap using AHash hasher
+#[cfg(not(greatest_ape_aquatic_verif))]
 pub type IndexMap<K, V> = indexmap::IndexMap<K, V, RandomState>;
+#[cfg(greatest_ape_aquatic_verif)]
+pub type IndexMap<K, V> = verif_shims::IndexMap<K, V>;
+#[cfg(greatest_ape_aquatic_verif)]
+#[path = "/verif/shims/common_shims.rs"]
+pub mod verif_shims;
 
 /// Peer, connection or similar valid until this instant
 #[derive(Debug, Clone, Copy)]
@@ -44,9 +50,17 @@ pub struct ServerStartInstant(Instant);
 impl ServerStartInstant {
     #[allow(clippy::new_without_default)] // I prefer ::new here
     pub fn new() -> Self {
+        #[cfg(greatest_ape_aquatic_verif)]
+        if let Some(instant) = verif_shims::mock_clock_instant() {
+            return Self(instant);
+        }
         Self(Instant::now())
     }
     pub fn seconds_elapsed(&self) -> Option<SecondsSinceServerStart> {
+        #[cfg(greatest_ape_aquatic_verif)]
+        if let Some(mocked) = verif_shims::mock_clock_now() {
+            return mocked.map(SecondsSinceServerStart);
+        }
         Instant::now().checked_duration_since(self.0).map(|dur| {
             let seconds = dur
                 .as_secs()
